@@ -138,6 +138,7 @@ def correspond(ctx, scale):
             for li_, layer_ in enumerate(mod.layers):
                 layer_._codebook.sample_codebook_temp = [Tcfg, 0.1, 0.0][li_ % 3] if li_ else Tcfg
             dist['per_layer_temperatures'] = dist.get('per_layer_temperatures', 0) + 1
+        cfg_temp = {id(cb_): float(cb_.sample_codebook_temp) for cb_ in cbs}          # the CONFIGURED temperature of every layer, recorded now (a per-call value must not stick to it)
         mod.train(train)
         # a HISTORY of calls on this one layer object: the temperature in force at each call is the per-call one if given, else the CONFIGURED one
         # (a per-call temperature must not stick to later calls)
@@ -168,7 +169,7 @@ def correspond(ctx, scale):
             for pos, ent in [(i, e) for i, e in enumerate(log) if e[0] == 'sample']:
                 _, logits, skw, ind, n0, cb_e = ent
                 # the temperature in force for THIS layer: the per-call one if given, else the one configured on this layer's codebook (layers may differ)
-                Teff = Tcall if Tcall is not None else float(cb_e.sample_codebook_temp)
+                Teff = Tcall if Tcall is not None else cfg_temp[id(cb_e)]
                 noises = [e for e in log[n0:pos] if e[0] == 'noise']
                 T_seen = skw.get('temperature')
                 if T_seen != Teff:
